@@ -117,6 +117,18 @@ func (j *judge) checkParts(hfSup, hfUnsup *int) {
 		}
 		res.Eval("C18.W5.parts")
 		if imagesInserted && strings.HasPrefix(name, "word/media/") {
+			// a picture inserted for an image placeholder is only there for a consumer when the package declares it:
+			// an Override for the part or a Default for its extension, naming the media type of its bytes
+			res.Eval("C18.W6.ct")
+			want := sniffImage(op.Parts[name])
+			if want == "image/jpeg" {
+				j.nJpegInserted++
+			}
+			if ct, ok := op.ContentTypeOf(name); !ok {
+				res.Fail("C18.W6.ct", "{part=%s;bytes=%s;jpgct=%s} the picture part inserted for an image placeholder has no content type: no Override for it and no Default for its extension (Defaults of the rendered package: %v)", name, want, b01(j.c.Foreign != nil && j.c.Foreign.JpgCT), sortedDefaults(op))
+			} else if want != "" && !strings.EqualFold(ct, want) {
+				res.Fail("C18.W6.ct", "{part=%s;bytes=%s;ct=%s} the picture part inserted for an image placeholder is declared as %s but holds %s data", name, want, ct, ct, want)
+			}
 			continue
 		}
 		res.Fail("C18.W5.parts", "{part=%s;new=1} the rendered package has a part the base document does not have", name)
@@ -176,6 +188,28 @@ func (j *judge) checkParts(hfSup, hfUnsup *int) {
 	if len(ctl) > 0 {
 		res.Fail("C18.W5.ct", "{part=[Content_Types].xml} content types differ from the base: %v", ctl)
 	}
+}
+
+// sniffImage names the media type of picture bytes by their signature ("" when it is none of the three formats supplied here).
+func sniffImage(b []byte) string {
+	switch {
+	case bytes.HasPrefix(b, []byte("\x89PNG\r\n\x1a\n")):
+		return "image/png"
+	case bytes.HasPrefix(b, []byte("\xff\xd8\xff")):
+		return "image/jpeg"
+	case bytes.HasPrefix(b, []byte("GIF87a")), bytes.HasPrefix(b, []byte("GIF89a")):
+		return "image/gif"
+	}
+	return ""
+}
+
+func sortedDefaults(p *opc.Package) []string {
+	var out []string
+	for ext, ct := range p.Defaults {
+		out = append(out, ext+"="+ct)
+	}
+	sort.Strings(out)
+	return out
 }
 
 func shortType(t string) string {
